@@ -78,8 +78,12 @@ theorem editorWrap_regenerated (h : Gen.Code.editorWrap_extracted = true)
     | (unfold Gen.Code.editorWrap
        simp only [editorWrapOpts_regenerated cx (by decide) hd hpos hph, bind_pure])
 
+/-- the hypothesis `PhFresh` of `editorWrapOpts_regenerated` holds at the real instance (pigeonhole,
+Model/Placeholder.lean) -/
+theorem phFresh_cxA : cxA.PhFresh := _root_.RosedVerif.phFresh_cxA
+
 theorem editorWrapOpts_cxA (h : Gen.Code.editorWrapOpts_extracted = true) (ed : Editor Int) (width : Int) (o : Options Int) :
     Gen.Code.editorWrapOpts cxA ed width o = ed.wrapOpts cxA width o :=
-  editorWrapOpts_regenerated cxA h defaultsOk_cxA cxA_WF.2 phFresh_cxA ed width o
+  editorWrapOpts_regenerated cxA h defaultsOk_cxA cxA_WF.2 _root_.RosedVerif.phFresh_cxA ed width o
 
 end RosedVerif.GenCodeEq
